@@ -35,8 +35,14 @@ func (r *Rediaron) RemovePod(ctx context.Context, podname string) error {
 		return errors.Wrapf(types.ErrPodHasNodes, "pod %s still has %d nodes, delete them first", podname, l)
 	}
 
-	_, err = r.cli.Del(ctx, key).Result()
-	return err
+	deleted, err := r.cli.Del(ctx, key).Result()
+	if err != nil {
+		return err
+	}
+	if deleted != 1 {
+		return errors.Wrapf(types.ErrPodNotFound, "podname: %s", podname)
+	}
+	return nil
 }
 
 // GetPod gets a pod by name
